@@ -40,6 +40,7 @@ func (c17) Info(tier string) fw.Info {
 			"oracle: no race report with a /repo frame; every expected line appears exactly once and whole; arguments echo the spawn-time values; every fin(id) event precedes the wait-returned event; a failing core's fatal interrupt is what the wait returns; the history of global reads/writes is linearizable per global (porcupine, register model). " +
 			"family shared-ro: globals holding ranges, int lists, str lists and strings which the cores only read, and range/list/str spawn arguments taken from a global, from a local of main shared by several spawns or from a literal, consumed by 2..8 cores at overlapping times through for / for+break (and re-entry) / for+continue / nested for / for over a local copy / index+len, with a host scheduling point tick() in every loop body and GOMAXPROCS set per case; oracle: every core prints exactly the result line its function prints in the sequential twin of the program (each `spawn f(..)` replaced by the call `f(..)`), plus the oracles above. " +
 			"family shared-path: the same for shared values which a core reaches through an expression: a global object, an object nested in an object, global lists of int lists / ranges / objects and object / list-of-lists spawn arguments (taken from a global, a part of a global, a shared local of main or a literal) hold the ranges, lists and strings; the iterable (or indexed value) of every loop form is a member, member-of-member, constant or computed index, member-then-index, index-then-member expression, the result of a call to a function returning a global or a part of one, or such an expression inside a grouping, block, if/else or cast; same twin oracle. " +
+			"family shared-code: the same for values written as literals in the code of the functions 2..8 cores execute at overlapping times (most cores the same function, so that they meet at the same source sites, also inside a helper all of them call, also main, also a child spawned by a worker): the iterable (or indexed value) of every loop form -- and of a loop over the elements of the elements of a str list -- is a str / range / int list / str list literal, or such a literal inside a grouping, block, if/else or cast, an element of a list literal, a member of an object literal, the result of a function whose body is the literal or which returns its parameter, a concatenation or a method result of literals; every operation has a literal (a source site) of its own; same twin oracle. " +
 			"family own-state: 2..8 cores which each build their own any-objects, lists, lists of lists, objects (with nested containers) and strings at source sites all cores evaluate (in the worker, in a helper, in a loop body, as a field / element of another literal, as a literal argument of a spawn, also of one spawn statement in a loop) and mutate them through set / push / push_front / insert / pop / element, field and compound assignment with tick() in every loop body; same twin oracle. " +
 			"family fatal: one core (sometimes two; a worker, a child of a worker or main) dies of integer/float division or remainder by zero, a negative power of zero, a negative shift count, an uncaught throw, unwrap of none, a failing cast, a failing assert, an index error, the call stack limit or the memory limit, raised 0..3 calls below the function the core was started with (plain, in for/if, while, try bodies, below a recursive function), all functions having names of 2..48 characters, while 1..6 other cores run forever or end early; oracle: the wait returns the fatal interrupt (class, kind, message, position) which the VM reports when main of a one-core twin program calls the failing function (of either failing function), and afterwards no goroutine stays inside Core.Run. " +
 			"non-trivial = at least 2 cores ran and the run finished; distinct = distinct (program, plan, GOMAXPROCS); interleavings_distinct counts distinct per-core event orders observed",
@@ -47,7 +48,7 @@ func (c17) Info(tier string) fw.Info {
 			"schedules are sampled (yield plans + GOMAXPROCS), not enumerated",
 			"mutable containers reachable from several cores are not synchronised by design notes in the code (TODO deepcopy) and are only read in the main workload",
 			"family fatal: the identity of a fatal interrupt is class, kind, first message line (numbers saying by how much a limit was exceeded masked) and, except for the limit errors, the source position",
-			"families shared-ro and shared-path: the reference result of a worker is what the real VM computes for the same function called sequentially (twin run, one core); what an iteration yields is not modelled",
+			"families shared-ro, shared-path and shared-code: the reference result of a worker is what the real VM computes for the same function called sequentially (twin run, one core); what an iteration yields is not modelled",
 		},
 		CaseTimeoutS: 60,
 		BatchSize:    40,
@@ -62,12 +63,12 @@ func (c17) Info(tier string) fw.Info {
 type Payload struct {
 	Seed  uint64 `json:"seed"`
 	Plan  uint64 `json:"plan"`
-	Shape string `json:"shape"` // print | globals | args | mixed | fail | nested | late-spawn | shared-ro | shared-path | own-state | fatal
+	Shape string `json:"shape"` // print | globals | args | mixed | fail | nested | late-spawn | shared-ro | shared-path | shared-code | own-state | fatal
 	// ForceGap: always sleep in the wait lock-upgrade gap (pinned witnesses).
 	ForceGap bool `json:"force_gap,omitempty"`
 	// Procs: GOMAXPROCS for this case (0 = whatever the batch runs with).
 	Procs int `json:"procs,omitempty"`
-	// Hot: shared-ro / shared-path: index of the global (of the expression) every worker of the program consumes;
+	// Hot: shared-ro / shared-path / shared-code: index of the global (of the expression) every worker of the program consumes;
 	// own-state: index of the container / site kind every worker builds; fatal: index of the error the failing core
 	// dies of (stratified over the programs).
 	Hot int `json:"hot,omitempty"`
@@ -147,6 +148,24 @@ func (c17) Cases(tier string, seed uint64) []fw.Case {
 			}
 		}
 	}
+	// family shared-code (see sharedcode.go): literals in the code of functions which several cores execute.
+	rc := fw.NewRng(seed ^ 0xC17c0de)
+	nsc, scPlans := 12, 2
+	if tier == "thorough" {
+		nsc, scPlans = 2*len(scHots), 5
+	}
+	scSeeds := make([]uint64, nsc)
+	for i := range scSeeds {
+		scSeeds[i] = rc.Next()
+	}
+	for j := 0; j < scPlans; j++ {
+		for i := 0; i < nsc; i++ {
+			plan := rc.Next()
+			for _, procs := range []int{1, 2, 4, 16} {
+				cases = append(cases, fw.MkCase(fmt.Sprintf("c17-sc-%03d-%d-p%d", i, j, procs), "threads", Payload{Seed: scSeeds[i], Plan: plan, Shape: "shared-code", Procs: procs, Hot: i % len(scHots)}))
+			}
+		}
+	}
 	// family fatal (see fatal.go): a core dying of every kind of fatal error, at every call depth, below functions
 	// with names of every length.
 	rf := fw.NewRng(seed ^ 0xC17fa7)
@@ -185,13 +204,16 @@ type spec struct {
 
 // roShape: the families whose oracle is the sequential twin.
 func roShape(shape string) bool {
-	return shape == "shared-ro" || shape == "shared-path" || shape == "own-state"
+	return shape == "shared-ro" || shape == "shared-path" || shape == "own-state" || shape == "shared-code"
 }
 
 // roWhat says what the workers of a twin-judged family do.
 func roWhat(shape string) string {
 	if shape == "own-state" {
 		return "writing only into containers it has created itself (r id ticks, then size and content of each container)"
+	}
+	if shape == "shared-code" {
+		return "consuming only values written as literals in its own code (r id count checksum elements helper-result)"
 	}
 	return "consuming values which no core ever writes (r id count checksum elements)"
 }
@@ -203,6 +225,8 @@ func buildRO(p Payload, seq bool) spec {
 		return buildSharedPath(p, seq)
 	case "own-state":
 		return buildOwnState(p, seq)
+	case "shared-code":
+		return buildSharedCode(p, seq)
 	}
 	return buildSharedRO(p, seq)
 }
